@@ -196,8 +196,8 @@ func runC05(r *Run, p *Prog) {
 			for _, s := range b.Succs {
 				for _, f := range T.edgeFactsOn(b, s) {
 					_, lit, ok := strConstEq(f)
-					if !ok || !blockInLoop(b) {
-						continue
+					if !ok || !blockInLoop(b) || !m.keywordTest(f) {
+						continue // (not a comparison of a keyword token: `name == ""` of a member reader written in the loop)
 					}
 					arms++
 					tname, known := wantKw[lit]
@@ -217,7 +217,19 @@ func runC05(r *Run, p *Prog) {
 							}
 						}
 					}
-					r.Ob("K3", shortName(ml), "keyword `"+lit+"` is read by the reader returning *"+tname, p.InstrPos(b.Instrs[len(b.Instrs)-1]), obj != nil, "the arm does not call a reader for "+tname)
+					if obj == nil {
+						// the member reader is written in (or is a piece of) the loop: the node is built on this arm
+						for _, in := range armInstrs(ml, s) {
+							if al, ok := in.(*ssa.Alloc); ok && isNamed(al.Type(), pkgIDL, tname) {
+								if obj != nil {
+									obj = nil // two nodes on one arm: not the shape this rule speaks about
+									break
+								}
+								obj = al
+							}
+						}
+					}
+					r.Ob("K3", shortName(ml), "keyword `"+lit+"` is read by the reader returning *"+tname, p.InstrPos(b.Instrs[len(b.Instrs)-1]), obj != nil, "the arm does not call a reader for "+tname+" (nor builds exactly one "+tname+" node itself)")
 					if obj == nil {
 						continue
 					}
